@@ -21,7 +21,7 @@ ASSUMPTIONS = [
 
 T_ALI = ["C", "N", "O", "F", "=", "#", "(", ")", "1", "2"]
 T_ARO = ["c", "n", "[nH]", ":", "C", "1", "%10", ".", "[", "]", "/", "\\", "%", "*", "$", "[C@TH1]", "(", ")"]
-T_ODD = ["C", "c", "[", "]", "²", "%²³", "[٣C]", "[C+٣]", "Ⅷ", " ", "\n", "é", "Br", "B", "r", "[C@@@]", "[CH]", "[C--]",
+T_ODD = ["{", "}", "[{}]", "[C{0}]", "%s", "C", "c", "[", "]", "²", "%²³", "[٣C]", "[C+٣]", "Ⅷ", " ", "\n", "é", "Br", "B", "r", "[C@@@]", "[CH]", "[C--]",
          "[C+-]", "H", "[H]", "[2H]", "[cH-]", "b", "p", "[te]", "[si]", "[cn]", "[fe]", ":", "1", "-", "[C:1]", "[c:٣]",
          "[C+999999999999999999999]", "[\x00]", "\ud800"]
 T_ARO_CORE = ["c", "n", "[nH]", ":", "C", "1", "(", ")", ".", "%10", "F"]
